@@ -831,6 +831,9 @@ func (vfs *MemFS) Rename(oldpath, newpath string) error {
 			}
 
 			nc.delete()
+		case *symlinkNode:
+			// an existing symbolic link is replaced, as rename(2) does.
+			nc.delete()
 		default:
 			err := error(avfs.ErrFileExists)
 			if vfs.OSType() == avfs.OsWindows {
